@@ -565,27 +565,52 @@ def resolved_text(events, upto, expr):
 
 
 def late_bound_loopvars(fnode):
-  """Functions/lambdas defined inside a for loop that read the loop variable as a free variable (not through a
-  parameter default): every one of them sees the value of the LAST iteration when it is called later.
+  """Functions/lambdas defined inside a loop that read a variable the loop rebinds on every iteration (the target of a `for`, a name assigned in
+  the body of a `while`/`for`) as a free variable, not through a parameter default: called later, every one of them sees the value of the LAST
+  iteration.  A nested function that is only ever called directly inside the loop body (never stored, passed or spawned) is not reported.
   -> [(nested def node, variable name)]"""
   out = []
   for lp in ast.walk(fnode):
-    if not isinstance(lp, ast.For):
+    if not isinstance(lp, (ast.For, ast.While)):
       continue
-    lvars = set(n.id for n in ast.walk(lp.target) if isinstance(n, ast.Name))
-    for st in lp.body:
-      for n in ast.walk(st):
-        if isinstance(n, (ast.FunctionDef, ast.Lambda)):
-          params = set(a.arg for a in n.args.posonlyargs + n.args.args + n.args.kwonlyargs)
-          if n.args.vararg:
-            params.add(n.args.vararg.arg)
-          if n.args.kwarg:
-            params.add(n.args.kwarg.arg)
-          body = n.body if isinstance(n.body, list) else [n.body]
-          assigned = set(x.id for b in body for x in ast.walk(b) if isinstance(x, ast.Name) and isinstance(x.ctx, ast.Store))
-          used = set(x.id for b in body for x in ast.walk(b) if isinstance(x, ast.Name) and isinstance(x.ctx, ast.Load))
-          for v in sorted((used & lvars) - params - assigned):
-            out.append((n, v))
+    lvars = set(n.id for n in ast.walk(lp.target) if isinstance(n, ast.Name)) if isinstance(lp, ast.For) else set()
+    nested = []
+    stack = list(lp.body)
+    while stack:
+      n = stack.pop()
+      if isinstance(n, (ast.FunctionDef, ast.AsyncFunctionDef, ast.Lambda)):
+        nested.append(n)
+        continue
+      if isinstance(n, ast.Name) and isinstance(n.ctx, ast.Store):
+        lvars.add(n.id)
+      stack.extend(ast.iter_child_nodes(n))
+    for n in nested:
+      params = set(a.arg for a in n.args.posonlyargs + n.args.args + n.args.kwonlyargs)
+      if n.args.vararg:
+        params.add(n.args.vararg.arg)
+      if n.args.kwarg:
+        params.add(n.args.kwarg.arg)
+      body = n.body if isinstance(n.body, list) else [n.body]
+      assigned = set(x.id for b in body for x in ast.walk(b) if isinstance(x, ast.Name) and isinstance(x.ctx, ast.Store))
+      used = set(x.id for b in body for x in ast.walk(b) if isinstance(x, ast.Name) and isinstance(x.ctx, ast.Load))
+      hits = sorted((used & lvars) - params - assigned - ({n.name} if hasattr(n, 'name') else set()))
+      if not hits:
+        continue
+      if hasattr(n, 'name'):
+        refs = [x for st in lp.body for x in ast.walk(st) if isinstance(x, ast.Name) and x.id == n.name and isinstance(x.ctx, ast.Load)]
+        calls = set()       # direct calls in the loop body (a call inside another closure is deferred too)
+        stk = list(lp.body)
+        while stk:
+          c = stk.pop()
+          if isinstance(c, (ast.FunctionDef, ast.AsyncFunctionDef, ast.Lambda, ast.ClassDef)):
+            continue
+          if isinstance(c, ast.Call):
+            calls.add(id(c.func))
+          stk.extend(ast.iter_child_nodes(c))
+        if refs and all(id(x) in calls for x in refs):
+          continue       # only called on the spot
+      for v in hits:
+        out.append((n, v))
   return out
 
 
@@ -757,3 +782,136 @@ def inline_expr_methods(prog, f, node, depth=0):
             return ast.copy_location(inline_expr_methods(prog, m, _copy.deepcopy(body[0].value), depth + 1), n)
       return n
   return T().visit(_copy.deepcopy(node))
+
+
+# ---------------------------------------------------------------- per-instance state
+_MUTATORS = ('add', 'append', 'appendleft', 'extend', 'update', 'pop', 'popleft', 'popitem', 'discard', 'remove', 'clear', 'insert', 'setdefault', 'sort', 'reverse',
+             'difference_update', 'intersection_update', 'symmetric_difference_update', 'put')
+_MUTABLE_CTORS = ('set', 'dict', 'list', 'deque', 'defaultdict', 'OrderedDict', 'bytearray', 'Queue', 'Counter')
+
+
+def instance_state(ctx, rule, rels):
+  """Per-instance state stays per instance: an object created in the class body (`_free = set()`) exists once for all instances; a method that
+  changes it in place through `self` (`self._free.add(t)`, `self._members[k] = v`) changes it for every connection / balancer / server set of
+  the process.  Accepted: the class rebinds the attribute on the instance in its constructor, or the attribute is only ever reached through the
+  class (a registry meant to be shared).  One obligation per class of the anchored modules."""
+  prog = ctx.prog
+  why = ('the state the property speaks about (tags in use, members, waiters, loads) is kept per connection / balancer / server set; a mutable object '
+         'defined in the class body is shared by all instances of the process')
+  n = 0
+  for rel in rels:
+    m = prog.modules.get(rel)
+    if m is None:
+      continue
+    def classes(tbl):
+      for c in tbl.values():
+        yield c
+        for x in classes(c.nested):
+          yield x
+    for c in classes(m.classes):
+      n += 1
+      shared = {}
+      for st in c.node.body:
+        if isinstance(st, ast.Assign) and len(st.targets) == 1 and isinstance(st.targets[0], ast.Name):
+          v = st.value
+          if isinstance(v, (ast.Dict, ast.List, ast.Set, ast.ListComp, ast.DictComp, ast.SetComp)) or \
+             (isinstance(v, ast.Call) and unparse(v.func).split('.')[-1] in _MUTABLE_CTORS):
+            shared[st.targets[0].id] = st
+      if not shared:
+        ctx.ob(rule, '%s:%d' % (rel, c.node.lineno), 'class %s keeps no mutable object in its body' % c.qualname, True, '', why, nontrivial=False)
+        continue
+      # methods of the class and of its subclasses in the package
+      fam = [k for k in prog.all_classes if c in prog.mro(k)] if hasattr(prog, 'all_classes') else [c]
+      bad = []
+      for k in fam:
+        rebound = set()
+        for mth in k.methods.values():
+          if mth.name == '__init__':
+            for x in ast.walk(mth.node):
+              if isinstance(x, ast.Attribute) and isinstance(x.ctx, ast.Store) and isinstance(x.value, ast.Name) and x.value.id == 'self':
+                rebound.add(x.attr)
+        for kk in prog.mro(k):
+          if kk is not k and '__init__' in kk.methods and '__init__' not in k.methods:
+            for x in ast.walk(kk.methods['__init__'].node):
+              if isinstance(x, ast.Attribute) and isinstance(x.ctx, ast.Store) and isinstance(x.value, ast.Name) and x.value.id == 'self':
+                rebound.add(x.attr)
+            break
+        for mth in k.methods.values():
+          for x in ast.walk(mth.node):
+            tgt = None
+            if isinstance(x, ast.Call) and isinstance(x.func, ast.Attribute) and x.func.attr in _MUTATORS:
+              tgt = x.func.value
+            elif isinstance(x, ast.Subscript) and isinstance(x.ctx, (ast.Store, ast.Del)):
+              tgt = x.value
+            elif isinstance(x, ast.AugAssign) and isinstance(x.target, ast.Attribute):
+              tgt = x.target if isinstance(shared.get(x.target.attr, None) and shared[x.target.attr].value, (ast.List, ast.Set)) else None
+            if isinstance(tgt, ast.Attribute) and isinstance(tgt.value, ast.Name) and tgt.value.id == 'self' and tgt.attr in shared and tgt.attr not in rebound:
+              bad.append('%s.%s changes self.%s in place' % (k.qualname, mth.name, tgt.attr))
+      ctx.ob(rule, '%s:%d' % (rel, c.node.lineno), 'class %s: objects created in the class body are not changed in place through self' % c.qualname, not bad,
+             '; '.join(sorted(set(bad))[:4]) + ' -- created once in the class body (%s) and never rebound per instance in __init__: every instance shares it' % ', '.join(
+               sorted(set(b.split('self.')[1].split(' ')[0] for b in bad))), why)
+  ctx.floor(rule, 'classes of the anchored modules', n, 1)
+
+
+def late_binding(ctx, rule, rels):
+  """No closure created in a loop of the anchored modules reads the loop's variables late (generic rule, see late_bound_loopvars)."""
+  prog = ctx.prog
+  why = ('a callback, greenlet body or timeout handler created per request / per frame / per member inside a loop must act on ITS request: a closure that reads the loop '
+         'variable when it runs acts on whatever the loop holds by then (the next frame, the last member)')
+  n = 0
+  for f in prog.all_funcs:
+    if f.module.rel not in rels or f.parent is not None:
+      continue
+    if not any(isinstance(x, (ast.For, ast.While)) for x in ast.walk(f.node)):
+      continue
+    n += 1
+    lb = late_bound_loopvars(f.node)
+    ctx.ob(rule, f, 'closures created in a loop bind what they need when they are created', not lb,
+           '; '.join('%s reads loop variable %r when it is called' % (getattr(d, 'name', 'lambda'), v) for d, v in lb[:3]), why, nontrivial=bool(lb))
+
+
+_SYNC_NAMES = ('RLock', 'Lock', 'Semaphore', 'BoundedSemaphore', 'Condition', 'Event', 'Queue', 'JoinableQueue', 'LifoQueue', 'PriorityQueue', 'Timeout')
+
+
+def greenlet_primitives(ctx, rule, rels):
+  """Locks, events and queues built in the anchored modules are gevent's: all greenlets share one OS thread, so a `threading.RLock` is re-entrant for
+  every greenlet (it serialises nothing across a yield), and a `threading.Event.wait` / `queue.Queue.get` blocks the hub itself."""
+  prog = ctx.prog
+  why = ('mutual exclusion and waiting between greenlets need cooperative primitives: a thread lock is owned by the (single) OS thread, so a second greenlet '
+         'acquires it at once while the first is parked inside the critical section')
+  for rel in rels:
+    m = prog.modules.get(rel)
+    if m is None:
+      continue
+    origins = {}
+    for st in ast.walk(m.tree):
+      if isinstance(st, ast.ImportFrom):
+        for a in st.names:
+          origins.setdefault(a.asname or a.name, set()).add(('.' * st.level) + (st.module or ''))
+      elif isinstance(st, ast.Import):
+        for a in st.names:
+          origins.setdefault((a.asname or a.name).split('.')[0], set()).add(a.name)
+    seen = set()
+    for c in ast.walk(m.tree):
+      if not isinstance(c, ast.Call):
+        continue
+      f = c.func
+      if isinstance(f, ast.Name) and f.id in _SYNC_NAMES:
+        src = origins.get(f.id)
+        if src is None or (f.id, tuple(sorted(src))) in seen:
+          continue        # defined locally / already judged
+        seen.add((f.id, tuple(sorted(src))))
+        ok = all(o.startswith('gevent') for o in src)
+        ctx.ob(rule, '%s:%d' % (rel, c.lineno), '%s() is a gevent primitive' % f.id, ok, '%s is imported from %s' % (f.id, sorted(src)), why)
+      elif isinstance(f, ast.Attribute) and f.attr in _SYNC_NAMES:
+        root = f.value
+        while isinstance(root, ast.Attribute):
+          root = root.value
+        if isinstance(root, ast.Name) and root.id in origins and root.id != 'self':
+          src = origins[root.id]
+          key = (unparse(f), tuple(sorted(src)))
+          if key in seen:
+            continue
+          seen.add(key)
+          ok = all(o.startswith('gevent') for o in src)
+          ctx.ob(rule, '%s:%d' % (rel, c.lineno), '%s() is a gevent primitive' % unparse(f), ok, '%s comes from %s' % (unparse(f), sorted(src)), why)
